@@ -80,6 +80,10 @@ FAMILIES = {
     'template_arg_breadth_and_depth': lambda d: 'void f(%s x);' % t_nest(d // 2, 'P<' + ', '.join(t_nest(2, 'X%d' % i) for i in range(d)) + '>'),
     'declarations': lambda d: ''.join('class C%d { C%d(); void f(int a, double b) const; static C%d Make(); };\n' % (i, i, i) for i in range(4 * d)),
     'argument_list': lambda d: 'void f(%s);' % ', '.join('const T%d& a%d = %d' % (i, i, i) for i in range(4 * d)),
+    # file / expression length: one default value whose leading qualified name grows (a scanner that backtracks over the
+    # splits of that run is exponential in its length, whatever the nesting depth)
+    'default_expression_length': lambda d: 'void f(const T& a = %s::Sigma(3, 1.0), int n = %s::kMax);'
+                                 % ('::'.join('ns%d' % i for i in range(2 * d)), '::'.join('q%d' % i for i in range(2 * d))),
     'template_and_namespace_depth': lambda d: ''.join('namespace n%d {' % i for i in range(d)) + ' %s f(%s x); ' % (t_nest(d), t_nest(d)) + '}' * d,
 }
 
